@@ -18,6 +18,14 @@ class TooLong(Exception):
     pass
 
 
+class Short(Exception):
+    """Decode mode: the payload is shorter than the fields/counts/masks it announces require."""
+
+    def __init__(self, key, name, need, have):
+        super().__init__(f"field {name} needs bits up to {need}, payload has {have}")
+        self.key, self.name, self.need, self.have = key, name, need, have
+
+
 def load_tables():
     from pyrtcm.rtcmtypes_core import RTCM_DATA_FIELDS
     from pyrtcm.rtcmtypes_get import RTCM_PAYLOADS_GET
@@ -110,7 +118,7 @@ class Builder:
     """Walks one definition, choosing raw values, laying out bits, predicting attributes."""
 
     def __init__(self, identity, rng, vstrat="random", cstrat="small", mstrat="random",
-                 cap=None, force=None, maxcells=64, pad1=False):
+                 cap=None, force=None, maxcells=64, pad1=False, source=None):
         defs, fields = tables()
         self.identity = identity
         self.pdict = defs[identity]
@@ -121,6 +129,8 @@ class Builder:
         self.force = force or {}  # attr name -> raw value override
         self.maxcells = maxcells
         self.pad1 = pad1
+        self.source = source  # decode mode: raw values are READ from these bytes
+        self.zero_str = False
         self.counters, self.conds, self.leaves = prescan(self.pdict)
         self.w = B.BitWriter()
         self.fields = []
@@ -223,7 +233,22 @@ class Builder:
             width = len(self.meta["sats"]) * len(self.meta["sigs"])
             role = "mask"
         # ---- choose raw
-        if name in self.force:
+        if self.source is not None:
+            have = len(self.source) * 8
+            if self.w.n + width > have:
+                raise Short(key, name, self.w.n + width, have)
+            raw = B.get_bits(self.source, self.w.n, width)
+            if key in ("DF394", "DF395"):
+                role = "mask"
+            elif key in self.counters or key in ("IDF037", "IDF038"):
+                role = "counter"
+            elif key in self.conds:
+                role = "cond"
+            elif key in ("DF002",) and not index:
+                role = "identity"
+            if typ == "STR" and raw == 0:
+                self.zero_str = True
+        elif name in self.force:
             raw = self.force[name] & ((1 << width) - 1) if width else 0
             if key in ("DF394", "DF395"):
                 role = "mask"
@@ -280,7 +305,7 @@ class Builder:
         else:
             raw = self._rand_value(width, typ)
         start, end = self.w.put(raw, width)
-        if self.w.n > MAXBITS:
+        if self.w.n > MAXBITS and self.source is None:
             raise TooLong()
         val = decode_value(typ, width, res, raw)
         self.fields.append(dict(key=key, name=name, start=start, width=width, typ=typ, raw=raw,
@@ -392,6 +417,20 @@ def build(identity, rng, vstrat="random", cstrat="small", mstrat="random", force
             if force:
                 force = None if cap < 2 else force
     raise RuntimeError(f"cannot fit {identity} into 1023 bytes")
+
+
+def decode(identity, payload):
+    """Reference DECODER: walk the definition over given bytes.
+
+    Returns an Encoded-like object (expected attributes, fields, nbits) or raises Short when the
+    payload cannot hold what it announces. STR zero units / M>N are flagged in meta, not judged.
+    """
+    b = Builder(identity, None, source=payload)
+    e = b.build()
+    e.payload = payload
+    e.meta["zero_str"] = b.zero_str
+    e.meta["m_gt_n"] = any(m > n for n, m, _, _ in e.meta.get("layers", []))
+    return e
 
 
 def public_attrs(msg):
